@@ -110,6 +110,8 @@ def run(ctx):
     ctx.do(rule_no_hidden_state, "C09.history-independence")
     from .pitfalls import rule_loops_not_cut_short
     ctx.do(rule_loops_not_cut_short, "C09.loops-complete")
+    from .pitfalls import rule_definite_assignment
+    ctx.do(rule_definite_assignment, "C09.definite-assignment")
 
 
 def producers(prog):
